@@ -335,7 +335,18 @@ pub fn run_scenario(sc: &Scenario, policy: Policy, run_id: u64, lines: &mut Vec<
                 let mut first = matches!(op, UiOp::Drain(_));
                 for _round in 0..12 {
                     sched.wait_quiet(Duration::from_millis(4));
-                    let pending = sched.count_since("notify", last_tick_seq) > 0;
+                    let mut pending = sched.count_since("notify", last_tick_seq) > 0;
+                    // a real event loop blocks until it is notified: while a spawned run has not ended yet, wait as a
+                    // blocked thread (so that a schedule that starves the pool lets it run), with bounded patience
+                    let mut patience = 0;
+                    while !pending && !first && patience < 40 && sched.count_since("tick.spawn", 0) > sched.count_since("run.done", 0) {
+                        sched.thread_blocked(true);
+                        std::thread::sleep(Duration::from_millis(2));
+                        sched.thread_blocked(false);
+                        sched.wait_quiet(Duration::from_millis(2));
+                        pending = sched.count_since("notify", last_tick_seq) > 0;
+                        patience += 1;
+                    }
                     if !(pending || first) {
                         break;
                     }
